@@ -254,15 +254,36 @@ class C09:
                 yt, ysc = kw.get("y_true", NONE), kw.get("y_score", NONE)
                 from sa.memo import cases
                 worst = None
+                flat = None
                 ncases = 0
                 for facts, (yt_c, ysc_c) in cases(yt, ysc):
                     ncases += 1
                     masks_t = [x[2] for x in walk(yt_c) if x[0] == "sub" and (x[2][0] in ("invert", "not"))]
                     masks_s = [x[2] for x in walk(ysc_c) if x[0] == "sub" and (x[2][0] in ("invert", "not"))]
                     isnan = [m for m in masks_t if any(y[0] == "call" and y[1] == ("ext", "numpy.isnan") for y in walk(m))]
+                    # rank of the truth array on this path: class indices (1-D, may be NaN = unlabelled) or an indicator matrix
+                    rank1 = None
+                    for c_, v_ in facts.items():
+                        if c_[0] == "cmp" and c_[1] == "eq" and ("const", 1) in (c_[2], c_[3]):
+                            o_ = c_[3] if c_[2] == ("const", 1) else c_[2]
+                            if o_[0] == "attr" and o_[2] == "ndim" and "y_true" in show(o_):
+                                rank1 = bool(v_[1])
+                    if rank1 is False:
+                        if masks_t or masks_s:
+                            flat = (facts, "a two-dimensional truth matrix is indexed with a boolean mask of its own shape")
+                        continue
+                    if rank1 is None and isnan:
+                        flat = (facts, "the element-wise mask np.isnan(y_true) is applied whatever the rank of y_true")
                     if not (isnan and masks_s and masks_s[0] == isnan[0]):
                         worst = (facts, len(masks_t), len(masks_s))
-                if worst is None:
+                if flat is not None:
+                    ctx.bad("R09.3", file, fname, "y_true[~np.isnan(y_true)]",
+                            f"{flat[1]}: for the indicator matrices of the multilabel task the mask has the matrix's own shape, indexing with it "
+                            "flattens truths and scores to one long binary problem, and the value labelled 'Mean Average Precision' is the "
+                            "micro-averaged precision (0.8635 where the mean over classes is 0.8889) -- the mask must be applied to "
+                            "one-dimensional class indices only", s.node.lineno,
+                            witness={"y_true": "[[1,0,1],[0,1,0],[1,1,0],[0,0,1]]", "reported": 0.8634920634920634, "macro": 0.8888888888888888})
+                elif worst is None:
                     ctx.ok("R09.3", site, f"unlabelled (NaN) rows removed from truths and scores with the same mask ({ncases} path(s))")
                 else:
                     when = ", ".join(f"{show(c)[:50]} = {v[1]}" for c, v in worst[0].items()) or "always"
